@@ -5,7 +5,9 @@ CONSTANTS
   Budget = 2
   MaxTurns = 4
   Restarts = 1
-  Defects = {"LateReset"}
+  Stops = 0
+  Pills = 0
+  Defects = {"LateReset", "StopRace"}
   RankOf <- Ranks
 VIEW View
 INVARIANTS SingleHandler SingleOwner NoDuplicate HandledWereSent PerProducerFIFO NoStrand
